@@ -39,6 +39,7 @@ Fifth round: C03.3 a requested state is stored on every path of Node.set_state a
 Sixth round: C03.3 every server that came up goes through reload_server and adjust_server_state (shared with C08.5).
 Seventh round: C03.3 the partition of a server is the recorded one (the default only when the record names none; shared with C11.1), and a server whose record was read again keeps its old object only when the fresh one is the same under the same parent (shared with C01.5).
 Eighth round: C03.4 the allocation object a record configures, and its assignments point to, is resolved from the partition the record names at every load (root allocation of self.cell.partitions[..] and get_sub_alloc steps only - no object remembered by name).
+Ninth round: C03.6 the reserved key of the trait table is not a trait - a name from the input is looked up or registered in the table only when it is not the reserved name (F22: a server listing a trait literally called 'invalid' carried the unknown-trait bit; repaired in /repo).
 Does NOT decide that a granted expiry never exceeds the reboot time over
 clock advances.
 """
@@ -631,6 +632,32 @@ def _unknown_traits(ctx):
            'unknown trait ORs the INVALID bit under use_invalid (and '
            'nothing else%s)' % (': also %s' % extra if extra else ''),
            construct='result |= code[INVALID]')
+    # the reserved key of the table is not a trait: a name taken from the
+    # input is looked up in the table, or registered in it, only when it is
+    # not the reserved name (a server that lists a trait literally called
+    # 'invalid' would otherwise carry the INVALID bit and satisfy every
+    # unknown requirement - or, registering it, move the reserved bit)
+    loops = [n for n in graph.nodes if n.kind == 'for']
+    tvars = set(v for lp in loops for v in N.for_targets(lp))
+    generic = [n for n in graph.nodes if n.kind == 'stmt' and (
+        (isinstance(n.ast, ast.AugAssign) and isinstance(
+            n.ast.value, ast.Subscript) and
+         N.txt(n.ast.value.slice) in tvars) or
+        (isinstance(n.ast, ast.Assign) and isinstance(
+            n.ast.targets[0], ast.Subscript) and
+         N.txt(n.ast.targets[0].slice) in tvars))]
+    ctx.require(generic, 'table lookup / registration by the trait name in '
+                'traits.encode', rule='C03.6', func=enc)
+    for node in generic:
+        var = N.txt(node.ast.value.slice if isinstance(
+            node.ast, ast.AugAssign) else node.ast.targets[0].slice)
+        ok = any(f.key[0] == 'cmp' and f.key[1] == '!=' and sorted(
+            t for t, _c in f.key[2]) == sorted([var, 'INVALID'])
+                 for f in efacts[node])
+        ctx.ob('C03.6', enc, node, ok,
+               'a trait name is looked up or registered in the code table '
+               'only when it is not the reserved name (%s != INVALID)' % var,
+               construct='reserved name is not a trait: %s' % node.text(40))
     # a new trait gets a fresh bit: in every iteration that registers one
     # the code is advanced before it is stored (two new traits of one call
     # must not share a bit)
@@ -803,6 +830,12 @@ _L = 'lib/python/treadmill/scheduler/loader.py'
 _T = 'lib/python/treadmill/traits.py'
 
 MUTANTS = [
+    ('revert-F22-reserved-name-is-a-trait', [(_T, """        if trait != INVALID and trait in code:
+""", """        if trait in code:
+""")], 'C03.6'),
+    ('reserved-name-registered', [(_T, """        elif trait != INVALID and add_new:
+""", """        elif add_new:
+""")], 'C03.6'),
     ('put-skips-lifetime', [(_S, """        if not self.check_app_lifetime(app):
             return False
 
